@@ -120,6 +120,15 @@ func runC17(c *CaseCtx) {
 // runC18: Backup while writers run. Writers execute a pre-generated list of operations indexed by an in-database
 // sequence key, so the state after n commits is the deterministic S(n).
 func runC18(c *CaseCtx) {
+	if c.Case%16 == 9 {
+		kind := []string{"kv", "set", "zset", "list"}[c.Rng.Intn(4)]
+		modes := []int{0}
+		if kind == "kv" {
+			modes = []int{0, 1, 2}
+		}
+		largeHistory(c, "backup-quiescent", largeOpts{Kind: kind, Modes: modes, Backup: true, Merge: c.Case%32 == 9})
+		return
+	}
 	r := c.Rng
 	cfg := randCfg(r, []int{0, 0, 1, 2}, 200, 900)
 	class := "backup"
